@@ -16,6 +16,8 @@
 """
 import json
 import os
+import subprocess
+import time
 
 from . import lib
 
@@ -108,7 +110,7 @@ def case_runs(quick):
         ("eq1", dict(n=3, eq=("e1",))),
         ("lock", dict(n=3, opt=("o1",), lock=(0, 1, 2))),
         ("flags2", dict(n=2, flags=range(256))),
-        ("flags3", dict(n=3, flags=FLAGS_SMALL)),
+        ("flags3", dict(n=3, flags=FLAGS_SMALL if quick else FLAGS_64[::2] + [8, 255])),
         ("listsT", dict(n=3, flags=(0, 1, 2, 3), tin=(1, 2), tout=(1, 2))),
         ("listsO", dict(n=3, flags=(0, 128), act=(1, 2), bsk=(0, 1, 2))),
         ("four", dict(n=4, opt=("o1",), flags=(131,) if quick else (3, 131))),
@@ -168,10 +170,29 @@ def stage(ctx):
 # ------------------------------------------------------------------------------------------------
 # spec -> code
 
+def start_bin(bindir, args, seed):
+    """Starts c13_replay in the background (the harness runs while TLC checks the models)."""
+    env = dict(os.environ)
+    env["VERIF_SEED"] = str(seed)
+    return subprocess.Popen([os.path.join(bindir, "c13_replay")] + list(args), env=env, stdout=subprocess.PIPE,
+                            stderr=subprocess.PIPE, text=True)
+
+
+def finish_bin(proc, what, timeout):
+    try:
+        out, err = proc.communicate(timeout=timeout)
+    except subprocess.TimeoutExpired:
+        proc.kill()
+        raise lib.ToolError("c13_replay %s timed out" % what)
+    if proc.returncode != 0:
+        lib.log(out[-2000:])
+        lib.log(err[-3000:])
+        raise lib.ToolError("c13_replay %s exited with %d" % (what, proc.returncode))
+    return json.loads(out.strip().splitlines()[-1])
+
+
 def run_merge(ctx, bindir, cases_path, tier, seed):
-    p = lib.run_bin(os.path.join(bindir, "c13_replay"), ["merge", cases_path, tier],
-                    env_extra={"VERIF_SEED": str(seed)}, timeout=3000)
-    return json.loads(p.stdout.strip().splitlines()[-1])
+    return finish_bin(start_bin(bindir, ["merge", cases_path, tier], seed), "merge", 3000)
 
 
 def describe_case(m):
@@ -203,13 +224,8 @@ def report_merge(ctx, mismatches, cap=3):
 
 def run_roles(ctx, bindir, nseq, tier, seed, name):
     path = ctx.path(name)
-    p = lib.run_bin(os.path.join(bindir, "c13_replay"), ["roles", path, str(nseq), tier],
-                    env_extra={"VERIF_SEED": str(seed)}, timeout=3000)
-    res = json.loads(p.stdout.strip().splitlines()[-1])
-    if res.get("failure"):
-        f = res["failure"]
-        return path, res, f
-    return path, res, None
+    res = finish_bin(start_bin(bindir, ["roles", path, str(nseq), tier], seed), "roles", 3000)
+    return path, res, res.get("failure")
 
 
 def read_trace(path):
@@ -304,14 +320,29 @@ def trace_classes(recs):
 def run(ctx):
     bindir = lib.cargo_build("h_tx", ["c13_replay"])
     d = stage(ctx)
-    model_check(ctx, d)
-    model_check_roles(ctx, d)
-    ctx.extra["model_states"] = ctx.states
-
-    # (2) spec -> code
+    # the cases first, so that the harness can execute them while TLC checks the theorems
     cases_path = ctx.path("cases.ndjson")
     ncases = emit_cases(ctx, d, cases_path)
-    res = run_merge(ctx, bindir, cases_path, ctx.tier, ctx.seed)
+    emitted_states = ctx.states
+    nseq = 400 if ctx.quick() else 300
+    tpath = ctx.path("roles.ndjson")
+    t0 = time.time()
+    merge_proc = start_bin(bindir, ["merge", cases_path, ctx.tier], ctx.seed)
+    roles_proc = start_bin(bindir, ["roles", tpath, str(nseq), ctx.tier], ctx.seed)
+    try:
+        # (1) the specifications alone
+        model_check(ctx, d)
+        model_check_roles(ctx, d)
+    except BaseException:
+        merge_proc.kill()
+        roles_proc.kill()
+        raise
+    ctx.extra["model_states"] = ctx.states - emitted_states
+
+    # (2) spec -> code
+    res = finish_bin(merge_proc, "merge", 3000)
+    rres = finish_bin(roles_proc, "roles", 3000)
+    lib.log("[harness] merge + roles finished %.1fs after their start" % (time.time() - t0))
     report_merge(ctx, res["mismatches"])
     if res["cases"] < ncases or res["role_cases"] < 500 or res["joins_predicted"] < 1000 or res["conflicts_predicted"] < 1000 \
             or res["v2_results"] < 50 or res["v1_results"] < 50:
@@ -321,8 +352,7 @@ def run(ctx):
                res["slot_classes"], len(res["mismatches"])))
 
     # (3) code -> spec
-    nseq = 400 if ctx.quick() else 240
-    tpath, rres, failure = run_roles(ctx, bindir, nseq, ctx.tier, ctx.seed, "roles.ndjson")
+    failure = rres.get("failure")
     recs = read_trace(tpath)
     accepted = 0
     if failure:
@@ -334,6 +364,11 @@ def run(ctx):
         if ok:
             accepted = k
             classes, missing = trace_classes(recs)
+            shielded_extracted = sum(1 for sq in rres["seqs"] if sq["base"] != "transparent" and recs[sq["last"] - 1]["a"] == "extract"
+                                     and recs[sq["last"] - 1]["oc"] == "ok")
+            ctx.extra["shielded_transactions_extracted"] = shielded_extracted
+            if shielded_extracted < 2:
+                missing.append("extract of a proven shielded transaction")
             if missing:
                 raise lib.ToolError("vacuity: the role driver produced no event of class %s" % ", ".join(missing))
             ctx.extra["trace_classes"] = {k2: v for k2, v in sorted(classes.items()) if not k2.startswith("write:")}
